@@ -271,7 +271,15 @@ Proof. now destruct n. Qed.
 (* ---- views *)
 Lemma view_session_names s k : map fst (view_session s k) = map s_name (mget k (p_mir s)).
 Proof. unfold view_session. rewrite map_map. reflexivity. Qed.
-Lemma view_file_names s k : map fst (view_file sk s k) = map f_name (filter (fun n => String.eqb (f_kind n) k) (p_file s)).
+Lemma read_group_in k f x : In x (read_group sk k f) <-> In x (map slot_of (filter (fun n => String.eqb (f_kind n) k) f)).
+Proof. unfold read_group. destruct (sk k); [apply sort_slots_in|tauto]. Qed.
+Lemma read_group_nodup k f : NoDup (map f_name f) -> NoDup (map s_name (read_group sk k f)).
+Proof.
+  intros H. assert (H2 : NoDup (map s_name (map slot_of (filter (fun n => String.eqb (f_kind n) k) f)))).
+  { rewrite map_map. simpl. now apply NoDup_map_filter. }
+  unfold read_group. destruct (sk k); auto. now apply sort_slots_nodup.
+Qed.
+Lemma view_file_names s k : map fst (view_file sk s k) = map s_name (read_group sk k (p_file s)).
 Proof. unfold view_file. rewrite map_map. reflexivity. Qed.
 
 Lemma in_view_session s k nm p : In (nm, p) (view_session s k) <-> exists id, In (mkS nm id p) (mget k (p_mir s)).
@@ -280,12 +288,14 @@ Proof.
   - intros [sl [E Hin]]. inversion E; subst. exists (s_id sl). now rewrite <- slot_eta.
   - intros [id Hin]. exists (mkS nm id p). auto.
 Qed.
-Lemma in_view_file sk s k nm p : In (nm, p) (view_file sk s k) <-> exists id, In (mkF id k nm p) (p_file s).
+Lemma in_view_file s k nm p : In (nm, p) (view_file sk s k) <-> exists id, In (mkF id k nm p) (p_file s).
 Proof.
   unfold view_file. rewrite in_map_iff. split.
-  - intros [n [E Hin]]. apply filter_In in Hin. destruct Hin as [Hin Hk]. apply seqb_eq in Hk.
+  - intros [sl [E Hin]]. apply read_group_in in Hin. apply in_map_iff in Hin. destruct Hin as [n [En Hn]].
+    apply filter_In in Hn. destruct Hn as [Hn Hk]. apply seqb_eq in Hk. subst sl. unfold slot_of in E. simpl in E.
     inversion E; subst. exists (f_id n). now rewrite <- fnode_eta.
-  - intros [id Hin]. exists (mkF id k nm p). split; auto. apply filter_In. simpl. now rewrite seqb_refl.
+  - intros [id Hin]. exists (mkS nm id p). split; auto. apply read_group_in. apply in_map_iff.
+    exists (mkF id k nm p). split; auto. apply filter_In. simpl. now rewrite seqb_refl.
 Qed.
 
 (* the session view and the view a fresh open would give agree as finite maps, and neither lists a name twice *)
@@ -293,13 +303,13 @@ Lemma Inv_views_agree s : Inv s -> forall k nm, vlookup nm (view_session s k) = 
 Proof.
   intros I k nm. apply vlookup_ext.
   - rewrite view_session_names. apply I.
-  - rewrite view_file_names. apply NoDup_map_filter. apply I.
+  - rewrite view_file_names. apply read_group_nodup. apply I.
   - intros p. rewrite in_view_session, in_view_file. split; intros [id H]; exists id; now apply I.
 Qed.
 Lemma Inv_session_nodup s : Inv s -> forall k, NoDup (map fst (view_session s k)).
 Proof. intros I k. rewrite view_session_names. apply I. Qed.
 Lemma Inv_file_nodup s : Inv s -> forall k, NoDup (map fst (view_file sk s k)).
-Proof. intros I k. rewrite view_file_names. apply NoDup_map_filter. apply I. Qed.
+Proof. intros I k. rewrite view_file_names. apply read_group_nodup. apply I. Qed.
 
 Lemma Rel_view_file s t : Inv s -> Rel s t -> forall k nm, vlookup nm (view_file sk s k) = i_view t k nm.
 Proof.
@@ -646,19 +656,20 @@ Qed.
 Lemma mget_regroup f k : mget k (regroup f) = map slot_of (filter (fun n => String.eqb (f_kind n) k) f).
 Proof. unfold regroup. now rewrite regroup_acc. Qed.
 
+Lemma mget_reopen s k : mget k (p_mir (reopen sk s)) = read_group sk k (p_file s).
+Proof. simpl. rewrite mget_resort. rewrite mget_regroup. reflexivity. Qed.
+
 Lemma reopen_sound s : Inv s -> Inv (reopen sk s).
 Proof.
-  intros I. constructor; simpl; try apply I.
-  - intros k. rewrite mget_regroup. rewrite map_map. simpl. apply NoDup_map_filter. apply I.
-  - intros k nm id p. rewrite mget_regroup. rewrite in_map_iff. split.
+  intros I. constructor; try (simpl; apply I).
+  - intros k. rewrite mget_reopen. apply read_group_nodup. apply I.
+  - intros k nm id p. rewrite mget_reopen. rewrite read_group_in. simpl. rewrite in_map_iff. split.
     + intros [n [E Hn]]. apply filter_In in Hn. destruct Hn as [Hn Hk]. apply seqb_eq in Hk.
       unfold slot_of in E. inversion E; subst. now rewrite <- fnode_eta.
     + intros Hin. exists (mkF id k nm p). split; auto. apply filter_In. simpl. now rewrite seqb_refl.
 Qed.
 Lemma reopen_view s k : view_session (reopen sk s) k = view_file sk s k.
-Proof. unfold view_session, view_file. simpl. rewrite mget_regroup. now rewrite map_map. Qed.
-Lemma reopen_file s k : view_file (reopen sk s) k = view_file sk s k.
-Proof. reflexivity. Qed.
+Proof. unfold view_session, view_file. now rewrite mget_reopen. Qed.
 
 (* ------------------------------------------------------------------------------------------------ histories *)
 (* the operations of the history are within scope: kinds for which the dispatcher is sound, names that are not reserved *)
@@ -784,15 +795,17 @@ Qed.
 
 (* ------------------------------------------------------------------------------------------------ order *)
 Definition OrdInv (s : parent) : Prop :=
-  forall k, mget k (p_mir s) = map slot_of (filter (fun n => String.eqb (f_kind n) k) (p_file s)).
+  forall k, sk k = false -> mget k (p_mir s) = map slot_of (filter (fun n => String.eqb (f_kind n) k) (p_file s)).
+(* the kinds of the history are not sorted on read *)
+Definition unsorted_kinds : Prop := forall k, kok k = true -> sk k = false.
 
-Lemma OrdInv_views s : OrdInv s -> forall k, view_session s k = view_file sk s k.
-Proof. intros O k. unfold view_session, view_file. rewrite O. now rewrite map_map. Qed.
+Lemma OrdInv_views s : OrdInv s -> forall k, sk k = false -> view_session s k = view_file sk s k.
+Proof. intros O k Hk. unfold view_session, view_file, read_group. rewrite Hk. now rewrite O. Qed.
 
 Lemma OrdInv_empty : OrdInv empty_parent.
-Proof. intros k. reflexivity. Qed.
+Proof. intros k _. reflexivity. Qed.
 Lemma OrdInv_reopen s : OrdInv (reopen sk s).
-Proof. intros k. simpl. apply mget_regroup. Qed.
+Proof. intros k Hk. rewrite mget_reopen. unfold read_group. now rewrite Hk. Qed.
 
 Lemma app_snoc_last {A} (l1 l2 l3 : list A) x : l1 ++ x :: l2 = l3 ++ [x] -> ~ In x l2 -> l2 = [].
 Proof.
@@ -826,11 +839,11 @@ Proof.
   pose proof (append_sound s t k nm p I R Hk Hst F) as AS. unfold append_new in *.
   destruct (file_has nm (p_file s)) eqn:Hh.
   - destruct AS as [AS _]. discriminate.
-  - simpl. intros k'. simpl. destruct (string_dec k' k) as [->|Hne].
+  - simpl. intros k' Hk'. simpl. destruct (string_dec k' k) as [->|Hne].
     + rewrite mget_mset_eq. rewrite filter_app_kind. simpl. rewrite seqb_refl. rewrite map_app. simpl.
-      now rewrite (O k).
+      now rewrite (O k Hk').
     + rewrite mget_mset_neq; auto. rewrite filter_app_kind. simpl.
-      destruct (String.eqb k k') eqn:E'; [apply seqb_eq in E'; congruence|]. rewrite app_nil_r. apply O.
+      destruct (String.eqb k k') eqn:E'; [apply seqb_eq in E'; congruence|]. rewrite app_nil_r. now apply O.
 Qed.
 
 (* rewriting an array in place keeps every index *)
@@ -849,10 +862,10 @@ Proof.
                                = file_upd id p (filter (fun n => String.eqb (f_kind n) k') f)).
   { intros k' f. unfold file_upd. induction f as [|y r IH]; simpl; auto. rewrite updn_kind.
     destruct (String.eqb (f_kind y) k'); simpl; now rewrite IH. }
-  intros k'. simpl. rewrite Hfilt. destruct (string_dec k' k) as [->|Hne].
+  intros k' Hk'. simpl. rewrite Hfilt. destruct (string_dec k' k) as [->|Hne].
   - rewrite mget_mset_eq.
     (* the file's children of kind k, split at the node being rewritten *)
-    pose proof (O k) as Ok. rewrite Hl in Ok.
+    pose proof (O k Hk') as Ok. rewrite Hl in Ok.
     assert (Hids : NoDup (map f_id (filter (fun n => String.eqb (f_kind n) k) (p_file s)))).
     { apply NoDup_map_filter. apply I. }
     revert Ok Hids. generalize (filter (fun n => String.eqb (f_kind n) k) (p_file s)) as fl.
@@ -870,18 +883,18 @@ Proof.
     rewrite Hfa, Hfb. f_equal. f_equal.
     destruct n as [nid nk nn np]. simpl in En'. unfold updn, slot_of. simpl. rewrite En', Z.eqb_refl. simpl.
     f_equal. rewrite <- Hname, <- En. reflexivity.
-  - rewrite mget_mset_neq; auto. rewrite (O k'). unfold file_upd. rewrite map_map. apply map_ext_in.
-    intros y Hy. apply filter_In in Hy. destruct Hy as [Hy Hk']. apply seqb_eq in Hk'.
+  - rewrite mget_mset_neq; auto. rewrite (O k' Hk'). unfold file_upd. rewrite map_map. apply map_ext_in.
+    intros y Hy. apply filter_In in Hy. destruct Hy as [Hy Hky]. apply seqb_eq in Hky.
     rewrite updn_other; auto. intros E.
-    assert (y = mkF id k nm (s_pay sl)) by (eapply same_id; eauto). subst y. simpl in Hk'. congruence.
+    assert (y = mkF id k nm (s_pay sl)) by (eapply same_id; eauto). subst y. simpl in Hky. congruence.
 Qed.
 
 Lemma step_order s t o :
-  Inv s -> Rel s t -> OrdInv s -> disp_ok -> op_names_ok kok nok o = true ->
+  Inv s -> Rel s t -> OrdInv s -> disp_ok -> unsorted_kinds -> op_names_ok kok nok o = true ->
   write_succeeds t o ->
   order_safe s o = true -> OrdInv (fst (step sk disp s o)).
 Proof.
-  intros I R O D Hn Hw Hs. destruct o as [k nm p|k nm p|nm|]; [| | |apply OrdInv_reopen].
+  intros I R O D US Hn Hw Hs. destruct o as [k nm p|k nm p|nm|]; [| | |apply OrdInv_reopen].
   - (* write *)
     simpl in Hn. apply andb_prop in Hn. destruct Hn as [Hk _].
     assert (Hgoal : OrdInv (fst (fst (write s k nm p)))).
@@ -905,7 +918,7 @@ Proof.
       apply file_del_split in Hdel. destruct Hdel as [fa [n [fb [Hf [-> [Hid Hfa]]]]]].
       assert (En : n = mkF (s_id sl) k nm (s_pay sl)).
       { eapply same_id; eauto. rewrite Hf. apply in_or_app. right. now left. }
-      pose proof (O k) as Ok. rewrite Hl, Hf in Ok. rewrite filter_app_kind in Ok. simpl in Ok.
+      pose proof (O k (US k Hk)) as Ok. rewrite Hl, Hf in Ok. rewrite filter_app_kind in Ok. simpl in Ok.
       rewrite En in Ok at 1. simpl in Ok. rewrite seqb_refl in Ok. rewrite map_app in Ok. simpl in Ok.
       (* the node is the last of its kind in the file *)
       assert (Hfb : filter (fun n0 => String.eqb (f_kind n0) k) fb = []).
@@ -920,10 +933,10 @@ Proof.
           now apply in_map. }
         destruct (filter (fun n0 => String.eqb (f_kind n0) k) fb); auto. discriminate. }
       rewrite Hfb in Ok. simpl in Ok. apply app_inj_tail in Ok. destruct Ok as [Ea _].
-      intros k'. simpl. destruct (string_dec k' k) as [->|Hne].
+      intros k' Hk'. simpl. destruct (string_dec k' k) as [->|Hne].
       * rewrite mget_mset_eq. rewrite !filter_app_kind. simpl. rewrite seqb_refl. rewrite Hfb.
         rewrite app_nil_r. rewrite map_app. simpl. now rewrite Ea.
-      * rewrite mget_mset_neq; auto. rewrite (O k'). rewrite Hf. rewrite !filter_app_kind. simpl.
+      * rewrite mget_mset_neq; auto. rewrite (O k' Hk'). rewrite Hf. rewrite !filter_app_kind. simpl.
         rewrite En. simpl. destruct (String.eqb k k') eqn:E'; [apply seqb_eq in E'; congruence|].
         now rewrite app_nil_r.
   - (* rewrite in place *)
@@ -939,24 +952,24 @@ Proof.
     apply file_del_split in Hdel. destruct Hdel as [fa [m [fb [Hf [-> [Hid Hfa]]]]]].
     assert (Em : m = n). { eapply same_id; eauto. rewrite Hf. apply in_or_app. right. now left. }
     subst m. set (k := f_kind n) in *.
-    pose proof (O k) as Ok. rewrite Hf in Ok. rewrite filter_app_kind in Ok. simpl in Ok.
+    pose proof (O k (US k (inv_kinds _ I _ Hin))) as Ok. rewrite Hf in Ok. rewrite filter_app_kind in Ok. simpl in Ok.
     unfold k in Ok at 2. rewrite seqb_refl in Ok. rewrite map_app in Ok. simpl in Ok.
     assert (Hfa' : ~ In nm (map s_name (map slot_of (filter (fun n0 => String.eqb (f_kind n0) k) fa)))).
     { rewrite map_map. simpl. intros Hx. apply in_map_iff in Hx. destruct Hx as [x [Ex Hx]]. apply filter_In in Hx.
       destruct Hx as [Hx _]. pose proof (inv_fnames _ I) as Hnd. rewrite Hf in Hnd. rewrite map_app in Hnd. simpl in Hnd.
       apply NoDup_remove_2 in Hnd. apply Hnd. apply in_or_app. left. rewrite Hnm, <- Ex. now apply in_map. }
     rewrite Ok. rewrite (remove_slot_split nm _ (slot_of n) _); auto.
-    simpl. intros k'. simpl. destruct (string_dec k' k) as [->|Hne].
+    simpl. intros k' Hk'. simpl. destruct (string_dec k' k) as [->|Hne].
     + rewrite mget_mset_eq. rewrite filter_app_kind. now rewrite map_app.
-    + rewrite mget_mset_neq; auto. rewrite (O k'). rewrite Hf. rewrite !filter_app_kind. simpl.
+    + rewrite mget_mset_neq; auto. rewrite (O k' Hk'). rewrite Hf. rewrite !filter_app_kind. simpl.
       fold k. destruct (String.eqb k k') eqn:E'; [apply seqb_eq in E'; congruence|]. reflexivity.
 Qed.
 
 Theorem run_order ops : forall s t,
-  Inv s -> Rel s t -> OrdInv s -> disp_ok -> ops_ok ops -> writes_ok t ops ->
+  Inv s -> Rel s t -> OrdInv s -> disp_ok -> unsorted_kinds -> ops_ok ops -> writes_ok t ops ->
   hist_order_safe sk disp s ops = true -> OrdInv (fst (run sk disp s ops)).
 Proof.
-  induction ops as [|o r IH]; intros s t I R O D Ho Hw Hs; [exact O|].
+  induction ops as [|o r IH]; intros s t I R O D US Ho Hw Hs; [exact O|].
   inversion Ho; subst. destruct Hw as [Hw1 Hw2]. simpl in Hs. apply andb_prop in Hs. destruct Hs as [Hs1 Hs2].
   destruct (step_sound s t o I R D H1 Hw1) as [_ [I' R']].
   rewrite run_cons. simpl. eapply IH; eauto. eapply step_order; eauto.
@@ -1066,15 +1079,16 @@ Qed.
 Lemma initial_ok kok : Inv kok empty_parent /\ Rel empty_parent [].
 Proof. split; [apply Inv_empty|apply Rel_empty]. Qed.
 
-Theorem order_views kok nok disp ops s0 t0 :
-  Inv kok s0 -> Rel s0 t0 -> OrdInv s0 -> disp_ok kok nok disp -> ops_ok kok nok ops -> writes_ok t0 ops ->
+Theorem order_views kok nok sk disp ops s0 t0 :
+  Inv kok s0 -> Rel s0 t0 -> OrdInv sk s0 -> disp_ok kok nok disp -> unsorted_kinds kok sk ->
+  ops_ok kok nok ops -> writes_ok t0 ops ->
   hist_order_safe sk disp s0 ops = true ->
-  forall k, view_session (fst (run sk disp s0 ops)) k = view_file (fst (run sk disp s0 ops)) k.
+  forall k, sk k = false -> view_session (fst (run sk disp s0 ops)) k = view_file sk (fst (run sk disp s0 ops)) k.
 Proof.
-  intros I R O D Ho Hw Hs k. apply OrdInv_views. eapply run_order; eauto.
+  intros I R O D US Ho Hw Hs k Hk. apply OrdInv_views; auto. eapply run_order; eauto.
 Qed.
 
-Theorem content_tables dt nd gt pl ops :
+Theorem content_tables dt nd gt pl sk ops :
   let kok := fun k => smem k (sound_kinds dt nd gt pl) in
   let nok := fun nm => negb (smem nm (reserved_names dt nd pl)) in
   let disp := disp_of dt nd gt pl in
@@ -1089,13 +1103,16 @@ Theorem content_tables dt nd gt pl ops :
   (forall k, NoDup (map fst (view_file sk s k))).
 Proof.
   intros kok nok disp Ho Hw.
-  exact (content_agree kok nok disp ops empty_parent [] (Inv_empty kok) Rel_empty (dispatch_disp_ok dt nd gt pl) Ho Hw).
+  exact (content_agree kok nok sk disp ops empty_parent [] (Inv_empty kok) Rel_empty (dispatch_disp_ok dt nd gt pl) Ho Hw).
 Qed.
 
 (* ------------------------------------------------------------------------------------------------ witnesses *)
 Definition K_SOL : string := "FlowSolution_t".
 Definition K_DISC : string := "DiscreteData_t".
+Definition K_ZONE : string := "Zone_t".
 Definition all_shift : string -> string -> daction := fun k _ => DShift k.
+Definition no_sort : string -> bool := fun _ => false.
+Definition base_sort : string -> bool := cgns_sorted "CGNSBase_t".
 
 (* solutions S1,S2,S3; overwrite S1: the session keeps index 1, a fresh open reports index 3 *)
 Definition order_witness : list op :=
@@ -1103,21 +1120,32 @@ Definition order_witness : list op :=
 
 Lemma order_refuted :
   writes_ok [] order_witness /\
-  let s := fst (run all_shift empty_parent order_witness) in
+  let s := fst (run no_sort all_shift empty_parent order_witness) in
   vindex "S1" (view_session s K_SOL) = Some 0%nat /\
-  vindex "S1" (view_session (reopen sk s) K_SOL) = Some 2%nat /\
+  vindex "S1" (view_session (reopen no_sort s) K_SOL) = Some 2%nat /\
   view_session s K_SOL = [("S1", 4); ("S2", 2); ("S3", 3)] /\
-  view_file s K_SOL = [("S2", 2); ("S3", 3); ("S1", 4)].
+  view_file no_sort s K_SOL = [("S2", 2); ("S3", 3); ("S1", 4)].
+Proof. vm_compute. repeat split; reflexivity. Qed.
+
+(* zones of a base are ordered by name on read: Zc then Za -- Za has index 2 in the session, 1 after a fresh open *)
+Definition zone_sort_witness : list op := [OWrite K_ZONE "Zc" 3; OWrite K_ZONE "Za" 4].
+Lemma zone_sort_refuted :
+  writes_ok [] zone_sort_witness /\
+  hist_order_safe base_sort all_shift empty_parent zone_sort_witness = true /\
+  let s := fst (run base_sort all_shift empty_parent zone_sort_witness) in
+  vindex "Za" (view_session s K_ZONE) = Some 1%nat /\
+  vindex "Za" (view_session (reopen base_sort s) K_ZONE) = Some 0%nat /\
+  view_file base_sort s K_ZONE = [("Za", 4); ("Zc", 3)].
 Proof. vm_compute. repeat split; reflexivity. Qed.
 
 (* a write that re-uses the name of a sibling of ANOTHER kind fails in the database after the mirror was extended:
    the session reports a DiscreteData_t that a fresh open does not find *)
 Definition phantom_witness : list op := [OWrite K_SOL "S2" 1; OWrite K_DISC "S2" 7].
 Lemma failed_write_phantom :
-  let r := run all_shift empty_parent phantom_witness in
+  let r := run no_sort all_shift empty_parent phantom_witness in
   snd r = [0; 1] /\
   vlookup "S2" (view_session (fst r) K_DISC) = Some 7 /\
-  vlookup "S2" (view_file (fst r) K_DISC) = None /\
+  vlookup "S2" (view_file no_sort (fst r) K_DISC) = None /\
   snd (i_run [] phantom_witness) = [0; 1].
 Proof. vm_compute. repeat split; reflexivity. Qed.
 
@@ -1125,10 +1153,10 @@ Proof. vm_compute. repeat split; reflexivity. Qed.
    block for the parent's label): the file node is gone, the session still lists it *)
 Definition wrong_arm : string -> string -> daction := fun _ _ => DOther 0.
 Lemma shadowed_delete_diverges :
-  let r := run wrong_arm empty_parent [OWrite "UserDefinedData_t" "DataClass" 5; ODelete "DataClass"] in
+  let r := run no_sort wrong_arm empty_parent [OWrite "UserDefinedData_t" "DataClass" 5; ODelete "DataClass"] in
   snd r = [0; 0] /\
   vlookup "DataClass" (view_session (fst r) "UserDefinedData_t") = Some 5 /\
-  vlookup "DataClass" (view_file (fst r) "UserDefinedData_t") = None.
+  vlookup "DataClass" (view_file no_sort (fst r) "UserDefinedData_t") = None.
 Proof. vm_compute. repeat split; reflexivity. Qed.
 
 (* non-vacuity: a history with creations, an overwrite of the last sibling, deletions at the front and a reopen
@@ -1138,9 +1166,9 @@ Definition sample_history : list op :=
    ODelete "A"; OReopen; OWrite K_SOL "E" 5; ODelete "D"; ODelete "nosuch"; OUpdate K_SOL "B" 20].
 Lemma sample_history_ok :
   ops_ok (fun _ => true) (fun _ => true) sample_history /\ writes_ok [] sample_history /\
-  hist_order_safe all_shift empty_parent sample_history = true /\
-  view_session (fst (run all_shift empty_parent sample_history)) K_SOL = [("B", 20); ("C", 30); ("E", 5)] /\
-  snd (run all_shift empty_parent sample_history) = [0; 0; 0; 0; 0; 0; 0; 0; 0; 1; 0].
+  hist_order_safe no_sort all_shift empty_parent sample_history = true /\
+  view_session (fst (run no_sort all_shift empty_parent sample_history)) K_SOL = [("B", 20); ("C", 30); ("E", 5)] /\
+  snd (run no_sort all_shift empty_parent sample_history) = [0; 0; 0; 0; 0; 0; 0; 0; 0; 1; 0].
 Proof.
   split; [repeat constructor|]. vm_compute. repeat split; reflexivity.
 Qed.
